@@ -9,7 +9,9 @@ THEOREMS = ["C09_handler_runs_only_if_active", "C09_calls_carry_active", "C09_in
             "C09_restart_stages_once_at_time", "C09_old_incarnation_silent", "C09_fresh_after_restart_partial", "C09_shutdown_frame",
             "C09_delivery_independent_of_m", "C09_run_terminates", "C09_run_is_generated", "C09_first_state_is_fresh",
             "C09_shutdown_leaves_fresh", "C09_restart_runs_first_start_callback", "C09_module_local", "C09_loop_is_mlog",
-            "C09_restarted_as_fresh", "C09_fresh_is_first_state", "C09_reset_panic_frame"]
+            "C09_restarted_as_fresh", "C09_fresh_is_first_state", "C09_reset_panic_frame",
+            "C09_run_script_over_cqueue", "C09_run_over_cqueue_eq_run_over_spec", "C09_run_over_cqueue_spec",
+            "C09_inert_while_down_cq", "C09_restart_stages_once_at_time_cq"]
 QUICK_N = 2500; THOROUGH_N = 120000
 RULE = ("scripts = 2..4 scripted modules on a ring (gate out -> next module, gate far -> transit gate of the next module -> the one after), "
         "each with handler programs selected by payload, start programs selected by incarnation, up to 3 tokio tasks (sleep / log / send / "
@@ -23,7 +25,10 @@ RULE = ("scripts = 2..4 scripted modules on a ring (gate out -> next module, gat
 TRUSTED = ["user code is a script language: log / send_in(out|far) / schedule_in / sleep (tasks) / shutdown / shutdow_and_restart_in / panic / "
            "quiet / set_stereotyp / schedule_at, send_at and shutdow_and_restart_at with a past time stamp (library-raised panics) / reads of a module's property and panics under its lock; tasks are spawned by at_sim_start(0) only (tokio::spawn, handle given to join or try_join as the script "
            "says; spawn and task end are logged by the scripted code), one timer per task at a time",
-           "the event set is the two-list specification that C01 proves the calendar queue refines",
+           "the extracted runner threads the two-list event-set specification; C09_run_over_cqueue_eq_run_over_spec proves (through C01's refinement "
+           "relation: R_add / R_fetch / R_len / R_new_at, with the model's own 'nothing is scheduled into the past' invariant discharging R_add's "
+           "side condition) that the same event loop over the concrete calendar queue, for every n, t >= 1, returns exactly the same result; the "
+           "queue carries an index into an event store because the Coq queue is monomorphic in its payload",
            "tokio is modelled as: woken and freshly spawned tasks are polled once each, FIFO, by the yield inside Harness::exec; dropping "
            "the runtime cancels every task and removes its timer entry (observed through task logs and drop guards, not proved)",
            "the monitor reads the implementation's log only; sends are justified against the log's own send records"]
@@ -41,7 +46,7 @@ CLAIM = dict(
          "nothing created before a shutdown acts after it; (6) consuming a shutdown request changes no other module's state, no global "
          "slot and no queued event other than inserting the restart event; (7) whether a message is delivered depends only on the active "
          "flags of the receiver and of the owners of the gates of its own chain, and an event of one module never changes another "
-         "module's state.  The model is tied to des on every invocation by differential runs of scripted modules/tasks on the real "
+         "module's state.  Composition with C01: the same event loop over the concrete calendar queue (cq_new_at n t 0 / add / fetch_next while qlen > 0, any n, t >= 1) returns the same result and prints the same log as the run over the event-set specification (C09_run_over_cqueue_eq_run_over_spec), so (1) and (4) are restated for the run over the calendar queue itself (C09_inert_while_down_cq, C09_restart_stages_once_at_time_cq) and every other clause transfers by the same rewrite.  The model is tied to des on every invocation by differential runs of scripted modules/tasks on the real "
          "runtime (shutdown(), shutdow_and_restart_in(), tokio::spawn + des::time::sleep, transit gates, stepping with is_active samples, "
          "drop guards on task futures) against the extracted model, plus a monitor that states (1)-(5), the dropping of messages "
          "through gates of a down module and timer exactness (a task that sleeps d from time x takes its next step at exactly x+d -- in "
